@@ -715,7 +715,19 @@ def run_equity(ctx, res, j, xs, text, path, rows, eq_cases):
     s2, b2, e2 = lib.run_ledger(['-f', qpath, 'bal', '--flat', '--empty', '--format', BAL_FMT] + NOW)
     res.count('equity-checked')
     if s2 != 0 or e2.strip():
-        res.violations.append(dict(key='equity-reread-fails', desc='the equity transaction is not accepted: %s' % e2.decode('utf-8', 'replace')[-200:],
+        # finding F30 can also show as an unbalanced opening transaction: every balance is rounded to the display
+        # precision separately, so the rounded postings need not sum to zero
+        cp0 = {}
+        for x in xs:
+            for p in x.posts:
+                for a in (p.amt, p.assigned):
+                    if a is not None and a.sym:
+                        cp0[a.sym] = max(cp0.get(a.sym, 0), a.dec)
+        finer = any(r['amt'] and r['amt'][2] > cp0.get((r['amt'][0] or '').split('~')[0], 0) for i in rows for r in rows[i])
+        key = 'equity-reread-fails'
+        if finer and b'does not balance' in e2:
+            key = 'equity-balance-differs:inferred-amount-rounded-to-display-precision'
+        res.violations.append(dict(key=key, desc='the equity transaction is not accepted: %s' % e2.decode('utf-8', 'replace')[-200:],
                                    case=dict(journal=text, printed=Q.decode('utf-8', 'replace')), observed='error', required='accepted'))
         return
     t1 = {k: v for k, v in parse_bal(b1).items() if k[0] != 'Equity:Opening Balances'}
